@@ -146,13 +146,16 @@ func refHTMLDecode(b []byte) []byte {
 	return out
 }
 
+var refC1 = [32]rune{0x20AC, 0x81, 0x201A, 0x192, 0x201E, 0x2026, 0x2020, 0x2021, 0x2C6, 0x2030, 0x160, 0x2039, 0x152, 0x8D, 0x17D, 0x8F,
+	0x90, 0x2018, 0x2019, 0x201C, 0x201D, 0x2022, 0x2013, 0x2014, 0x2DC, 0x2122, 0x161, 0x203A, 0x153, 0x9D, 0x17E, 0x178}
+
 func refRuneBytes(x int) []byte {
 	if x == 0 || x > 0x10FFFF || x >= 0xD800 && x <= 0xDFFF {
 		return []byte("�")
 	}
 	if x >= 0x80 && x <= 0x9F {
-		// windows-1252 remapping; only the values reachable in the bounded domain
-		return []byte("�?")[:0]
+		// numeric references to C1 controls are remapped through windows-1252 (WHATWG table)
+		return []byte(string(refC1[x-0x80]))
 	}
 	return []byte(string(rune(x)))
 }
